@@ -8,14 +8,20 @@ Lemma foreign_not_removable s : foreign s = true -> can_remove s = false.
 Proof. unfold foreign. destruct s as [t|]; [|discriminate]. destruct (can_remove (Some t)); cbn; congruence. Qed.
 
 Lemma rename_ok_None t : can_remove (Some t) = true -> rename_ok (Some t) None = true.
-Proof. destruct t as [c|es|]; cbn; [discriminate|reflexivity|discriminate]. Qed.
-
-Lemma rename_foreign_fails s o : foreign o = true -> rename_ok s o = false.
-Proof.
-  destruct o as [[c|[|e es]|]|]; cbn; try discriminate; destruct s as [[c'|es'|]|]; try reflexivity.
-Qed.
+Proof. destruct t as [c|es| |]; cbn; [discriminate|reflexivity|discriminate|reflexivity]. Qed.
 
 Definition fresh (opts : list N) : slot := Some (Dir [(n_default_opts, File opts)]).
+
+(* DIR.old is "ours": a real directory (not a link to one) holding uftrace data or nothing *)
+Definition old_ours (s : slot) : bool := real_dir s && can_remove s.
+(* DIR.old is in the way: it exists and is not ours - a foreign directory, a file, any symbolic link *)
+Definition in_the_way (s : slot) : bool := exists_ s && negb (old_ours s).
+
+Lemma foreign_in_the_way s : foreign s = true -> in_the_way s = true.
+Proof.
+  unfold foreign, in_the_way, old_ours. destruct s as [t|]; [|discriminate]. intro H.
+  apply negb_true_iff in H. rewrite H, andb_false_r. reflexivity.
+Qed.
 
 Lemma create_spec opts w :
   create_directory true opts w =
@@ -23,20 +29,20 @@ Lemma create_spec opts w :
   | None => ({| dir := fresh opts; old := old w |}, OK)
   | Some t =>
       if can_remove (Some t)
-      then (if foreign (old w) then (w, Error)
+      then (if in_the_way (old w) then (w, Error)
             else ({| dir := fresh opts; old := Some t |}, OK))
       else (w, Error)
   end.
 Proof.
-  destruct w as [d o]; unfold create_directory; cbn [dir old].
+  destruct w as [d o]; unfold create_directory, in_the_way, old_ours; cbn [dir old].
   destruct d as [t|].
-  - destruct (can_remove (Some t)) eqn:R; cbn [andb negb].
-    + destruct (foreign o) eqn:F.
-      * rewrite (foreign_not_removable _ F). rewrite (rename_foreign_fails _ _ F). reflexivity.
-      * destruct o as [ot|].
-        -- unfold foreign in F. destruct (can_remove (Some ot)) eqn:RO; [|discriminate].
-           rewrite (rename_ok_None t R). cbn. reflexivity.
-        -- cbn [can_remove]. rewrite (rename_ok_None t R). cbn. reflexivity.
+  - destruct (can_remove (Some t)) eqn:R; cbn [andb negb orb].
+    + destruct (exists_ o && negb (real_dir o && can_remove o)) eqn:W; cbn [andb orb negb].
+      * reflexivity.
+      * assert (O1 : (if real_dir o && can_remove o then None else o) = None).
+        { destruct o as [ot|]; [|destruct (real_dir None && can_remove None); reflexivity].
+          cbn [exists_ andb] in W. apply negb_false_iff in W. rewrite W. reflexivity. }
+        rewrite O1, (rename_ok_None t R). cbn. reflexivity.
     + cbn. reflexivity.
   - cbn. reflexivity.
 Qed.
@@ -49,19 +55,26 @@ Proof.
   rewrite (foreign_not_removable _ F). reflexivity.
 Qed.
 
-Lemma run_foreign_old w r : foreign (old w) = true -> old (fst (record_run true w r)) = old w.
+(* a DIR.old that is in the way is never removed, replaced or changed *)
+Lemma run_old_in_the_way w r : in_the_way (old w) = true -> old (fst (record_run true w r)) = old w.
 Proof.
   intro F. unfold record_run. rewrite create_spec.
   destruct (dir w) as [t|]; [destruct (can_remove (Some t))|]; rewrite ?F; reflexivity.
 Qed.
+Lemma run_foreign_old w r : foreign (old w) = true -> old (fst (record_run true w r)) = old w.
+Proof. intro F. apply run_old_in_the_way, foreign_in_the_way, F. Qed.
 
 (* what rotation does *)
-Lemma run_rotates w r t : dir w = Some t -> can_remove (Some t) = true -> foreign (old w) = false ->
+Lemma run_rotates w r t : dir w = Some t -> can_remove (Some t) = true -> in_the_way (old w) = false ->
   let '(w', res) := record_run true w r in
   res = OK /\ old w' = Some t /\ dir w' = populate (r_extra r) (fresh (r_opts r)).
 Proof.
   intros D R F. unfold record_run. rewrite create_spec, D, R, F. cbn. auto.
 Qed.
+(* ... and when DIR.old is in the way, nothing at all changes and the run fails *)
+Lemma run_refused w r t : dir w = Some t -> can_remove (Some t) = true -> in_the_way (old w) = true ->
+  record_run true w r = (w, Error).
+Proof. intros D R F. unfold record_run. rewrite create_spec, D, R, F. reflexivity. Qed.
 
 Lemma run_dir_changes_only_if_removable w r :
   dir (fst (record_run true w r)) <> dir w ->
@@ -79,29 +92,43 @@ Lemma name_eqb_refl l : name_eqb l l = true.
 Proof. induction l; cbn; rewrite ?N.eqb_refl; auto. Qed.
 Lemma tree_eqb_refl : forall t, tree_eqb t t = true.
 Proof.
-  fix IH 1. intros [c|es|].
+  fix IH 1. intros [c|es| |].
   - cbn. apply list_eqb_refl.
   - cbn. induction es as [|[n u] es IHes]; [reflexivity|].
     rewrite name_eqb_refl, (IH u), IHes. reflexivity.
+  - reflexivity.
   - reflexivity.
 Qed.
 Lemma slot_eqb_refl s : slot_eqb s s = true.
 Proof. destruct s as [t|]; [apply tree_eqb_refl|reflexivity]. Qed.
 
-Local Opaque can_remove slot_eqb.
+Lemma not_in_the_way_not_foreign s : in_the_way s = false -> foreign s = false.
+Proof. intro H. destruct (foreign s) eqn:F; [|reflexivity]. rewrite (foreign_in_the_way _ F) in H. discriminate. Qed.
+
 Lemma ok_run_model w r :
   let '(w', res) := record_run true w r in ok_run w w' res = true.
 Proof.
   unfold record_run. rewrite create_spec. destruct w as [d o]. cbn [dir old].
-  unfold ok_run, foreign.
-  destruct d as [t|]; [destruct (can_remove (Some t)) eqn:R|];
-  (destruct o as [ot|]; [destruct (can_remove (Some ot)) eqn:RO|]);
-  cbn [negb andb orb fst snd dir old populate fresh result_eqb];
-  rewrite ?R, ?RO, ?slot_eqb_refl; cbn [negb andb orb result_eqb];
-  rewrite ?R, ?RO, ?slot_eqb_refl; cbn [negb andb orb result_eqb];
-  repeat match goal with |- context [slot_eqb ?a ?b] => destruct (slot_eqb a b) end; reflexivity.
+  destruct d as [t|].
+  - destruct (can_remove (Some t)) eqn:R.
+    + destruct (in_the_way o) eqn:W.
+      * (* refused: nothing changes *)
+        unfold ok_run. cbn [dir old]. rewrite !slot_eqb_refl.
+        unfold foreign at 1. rewrite R. cbn [negb andb orb result_eqb].
+        destruct (foreign o); cbn [andb orb]; destruct (foreign (Some t)); reflexivity.
+      * (* rotated *)
+        unfold ok_run. cbn [dir old populate fresh].
+        unfold foreign at 1. rewrite R. cbn [negb andb].
+        rewrite (not_in_the_way_not_foreign _ W). rewrite ?R, ?slot_eqb_refl. cbn [andb].
+        match goal with |- context [slot_eqb ?a (Some t)] => destruct (slot_eqb a (Some t)) end; reflexivity.
+    + (* foreign DIR: refused *)
+      unfold ok_run. cbn [dir old]. rewrite !slot_eqb_refl.
+      unfold foreign at 1. rewrite R. cbn [negb andb orb result_eqb].
+      destruct (foreign o); cbn [andb orb]; unfold foreign; rewrite ?R; reflexivity.
+  - (* DIR absent: created *)
+    unfold ok_run. cbn [dir old populate fresh foreign]. rewrite slot_eqb_refl. cbn [andb].
+    destruct (foreign o); reflexivity.
 Qed.
-Local Transparent can_remove slot_eqb.
 
 (* ---------- sequences of runs ---------- *)
 Theorem foreign_dir_forever rs : forall w, foreign (dir w) = true -> record_runs true w rs = w.
@@ -115,6 +142,27 @@ Proof.
   induction rs as [|r rs IH]; intros w F; cbn; [reflexivity|].
   unfold record_runs in IH. rewrite IH; rewrite (run_foreign_old w r F); [reflexivity|exact F].
 Qed.
+
+Theorem old_in_the_way_forever rs : forall w, in_the_way (old w) = true -> old (record_runs true w rs) = old w.
+Proof.
+  induction rs as [|r rs IH]; intros w F; cbn; [reflexivity|].
+  unfold record_runs in IH. rewrite IH; rewrite (run_old_in_the_way w r F); [reflexivity|exact F].
+Qed.
+
+(* ---------- the defect as found: DIR is a symbolic link to uftrace data, DIR.old a foreign FILE (or link):
+   rename() replaces it ---------- *)
+Definition precious : tree := File [112; 114; 101].
+Definition w_link : world := {| dir := Some ULink; old := Some precious |}.
+Lemma legacy_link_replaces_file :
+  foreign (old w_link) = true /\ in_the_way (old w_link) = true /\
+  old (fst (record_run false w_link {| r_opts := []; r_extra := [] |})) = Some ULink /\
+  record_run true w_link {| r_opts := []; r_extra := [] |} = (w_link, Error).
+Proof. vm_compute. repeat split. Qed.
+(* ... while a DIR that is a link rotates like a directory when DIR.old is absent or ours (the link itself moves) *)
+Example link_rotation_example :
+  record_run true {| dir := Some ULink; old := Some (Dir []) |} {| r_opts := []; r_extra := [] |}
+  = ({| dir := fresh []; old := Some ULink |}, OK).
+Proof. vm_compute. reflexivity. Qed.
 
 (* ---------- the defect as found (unguarded create_default_opts) ---------- *)
 Definition notes : tree := Dir [([110], File [1; 2; 3])].       (* a directory holding a file "n" *)
@@ -143,7 +191,7 @@ Proof.
 Qed.
 Lemma host_run_foreign_old w r : foreign (old w) = true -> old (fst (record_run_host true w r)) = old w.
 Proof.
-  intro F. unfold record_run_host. rewrite create_spec.
+  intro F. apply foreign_in_the_way in F. unfold record_run_host. rewrite create_spec.
   destruct (dir w) as [t|]; [destruct (can_remove (Some t))|]; rewrite ?F; reflexivity.
 Qed.
 
